@@ -146,6 +146,12 @@ def tasks(tier, seed):
         for first in range(len(EVENTS)):
             ts.append({"chatty": chatty, "tmo": tmo, "first": first, "depth": depth,
                        "name": "%s/t%s/%s" % ("chatty" if chatty else "quiet", tmo, EVENTS[first])})
+    # close() called with an explicit timeout (0: do not wait for the server's answer at all; 1; 0.5) instead of the default 3
+    for chatty in (False, True):
+        for ctmo in (0, 1, 0.5):
+            for first in range(len(EVENTS)):
+                ts.append({"chatty": chatty, "tmo": 5, "first": first, "depth": depth - 1, "ctmo": ctmo,
+                           "name": "%s/t5/close-timeout=%s/%s" % ("chatty" if chatty else "quiet", ctmo, EVENTS[first])})
     # the same machine on a connection without locks (enable_multithread=False)
     for first in range(len(EVENTS)):
         ts.append({"chatty": False, "tmo": 5, "first": first, "depth": depth, "nomt": True, "name": "quiet/t5/nomt/%s" % EVENTS[first]})
@@ -231,6 +237,7 @@ class Harness:
         sock.close_t0 = clock.now
         exc = None
         ret = None
+        ckw = {"timeout": self.d["ctmo"]} if self.d.get("ctmo") is not None else {}
         try:
             if ev == "send":
                 ret = ws.send("x")
@@ -239,13 +246,13 @@ class Harness:
             elif ev == "ping":
                 ret = ws.ping("k")
             elif ev == "close":
-                ret = ws.close()
+                ret = ws.close(**ckw)
             elif ev == "close1001":
-                ret = ws.close(1001, b"bye")
+                ret = ws.close(1001, b"bye", **ckw)
             elif ev == "close-1":
-                ret = ws.close(-1)
+                ret = ws.close(-1, **ckw)
             elif ev == "close65536":
-                ret = ws.close(65536)
+                ret = ws.close(65536, **ckw)
             elif ev == "send_close":
                 ret = ws.send_close()
             elif ev == "send_close1002":
@@ -349,9 +356,11 @@ class Harness:
             # nothing may be written) leaves the connection released
             ref["state"] = "RELEASED"
             # I5 bounded time
-            if sock.blocked_forever or clock.now - t0 > 6.0 + 1e-9:
-                raise Violation({"kind": "close-unbounded", "chatty": self.d["chatty"], "blocked": sock.blocked_forever},
-                                "history %s: %s took %.1f virtual seconds (timeout 3)%s" % (H, ev, clock.now - t0, ", transport would block for ever" if sock.blocked_forever else ""))
+            ctmo = self.d["ctmo"] if self.d.get("ctmo") is not None else 3
+            # (the chatty server model advances the clock in whole seconds: one frame per second; a close() that listens at all pays >= 1)
+            if sock.blocked_forever or clock.now - t0 > max(2.0 * ctmo, 1.0 if ctmo else 0.0) + 1e-9:
+                raise Violation({"kind": "close-unbounded", "chatty": self.d["chatty"], "blocked": sock.blocked_forever, "timeout": ctmo},
+                                "history %s: %s took %.1f virtual seconds (timeout %s)%s" % (H, ev, clock.now - t0, ctmo, ", transport would block for ever" if sock.blocked_forever else ""))
             if consumed_close:
                 ref["peer_close"] = True
         elif ev == "shutdown":
